@@ -52,6 +52,7 @@ type Replica struct {
 	dead     bool
 	Watchdog time.Duration
 	exited   chan struct{}
+	out      *os.File
 	waitErr  error
 }
 
@@ -94,14 +95,19 @@ func Spawn(dir string, opt SpawnOpt) (*Replica, error) {
 	if err != nil {
 		return nil, err
 	}
-	out, err := cmd.StdoutPipe()
+	// own pipe: cmd.Wait() must not close the read side while a response is still unread
+	out, pw, err := os.Pipe()
 	if err != nil {
 		return nil, err
 	}
+	cmd.Stdout = pw
 	cmd.SysProcAttr = &syscall.SysProcAttr{Pdeathsig: syscall.SIGKILL}
 	if err := cmd.Start(); err != nil {
+		pw.Close()
+		out.Close()
 		return nil, err
 	}
+	pw.Close()
 	ef.Close()
 	r := &Replica{Dir: dir, cmd: cmd, in: in, enc: gob.NewEncoder(in), dec: gob.NewDecoder(bufio.NewReader(out)),
 		errPath: errPath, Watchdog: 120 * time.Second, exited: make(chan struct{})}
@@ -109,6 +115,7 @@ func Spawn(dir string, opt SpawnOpt) (*Replica, error) {
 		r.waitErr = cmd.Wait()
 		close(r.exited)
 	}()
+	r.out = out
 	return r, nil
 }
 
@@ -228,6 +235,10 @@ func (r *Replica) Close() {
 	if !dead {
 		r.Kill()
 	}
+	if r.out != nil {
+		_ = r.out.Close()
+	}
+	_ = r.in.Close()
 }
 
 func (r *Replica) call(op string, req []byte) ([]byte, error) {
